@@ -554,6 +554,19 @@ fn scenarios(thorough: bool) -> Vec<Scenario> {
     let pushes = |c: &Vec<(usize, Vec<COp>)>| c.iter().any(|(_, ops)| ops.iter().any(|o| matches!(o, Del(_) | Expire(_))));
     let extra: Vec<Scenario> = s[..core].iter().filter(|x| pushes(&x.clients) && x.thresholds.iter().all(|t| *t >= 4)).cloned().map(|mut x| { x.slow_scan = true; x }).collect();
     s.extend(extra);
+    // dense start points: one deleting / expiring command through the destination proxy, started
+    // after every number 0..=14 of served requests, so that it lands in every gap of the scan of
+    // its key (between SCAN, PTTL+DUMP, RESTORE, DEL) whatever the batch size
+    for scan_count in [1u64, 16] {
+        for a in 0..=14usize {
+            for (op, other) in [(Del(0), Get(2)), (Del(1), Exists(2)), (Expire(0), Get(2))] {
+                if !thorough && !matches!(op, Del(0)) {
+                    continue;
+                }
+                s.push(Scenario { init: [p("a"), p("b"), p("c")], clients: vec![(1, vec![op, Get(2)]), (0, vec![other])], thresholds: vec![a, 0], scan_count, conn_num: 1, active_redirection: false, wide: false, lone_deferral: thorough, slow_scan: false });
+            }
+        }
+    }
     s
 }
 
